@@ -632,3 +632,44 @@ def rule_c12_structure(repo, res):
     if not ok:
         res.add(Finding("UPPER", "ODLEncoder.encode_assignment", "key.upper()", "ODL/PDS3 parameter names are no longer upper-cased",
                         where=f"pvl/encoder.py:{fa.lineno}"))
+
+
+def rule_level_forwarding(repo, res):
+    """INDENT-LEVEL: a method that receives the nesting `level` forwards it (level or level + 1) to every callee
+    that takes a `level` parameter -- otherwise the callee silently formats at its default level 0."""
+    n = 0
+    for cls in encoder_classes(repo):
+        for m, fn in repo.classes[cls].methods.items():
+            params = [a.arg for a in fn.args.args]
+            if "level" not in params:
+                continue
+            for call in [x for x in ast.walk(fn) if isinstance(x, ast.Call) and isinstance(x.func, ast.Attribute)]:
+                v = call.func.value
+                if isinstance(v, ast.Name) and v.id == "self":
+                    c2, callee = repo.resolve_method(cls, call.func.attr)
+                elif isinstance(v, ast.Call) and norm(v.func) == "super":
+                    c2, callee = repo.resolve_method(cls, call.func.attr, after=cls)
+                else:
+                    continue
+                if callee is None:
+                    continue
+                cparams = [a.arg for a in callee.args.args][1:]
+                if "level" not in cparams:
+                    continue
+                n += 1
+                idx = cparams.index("level")
+                arg = None
+                if idx < len(call.args):
+                    arg = call.args[idx]
+                for kw in call.keywords:
+                    if kw.arg == "level":
+                        arg = kw.value
+                ok = arg is not None and any(isinstance(x, ast.Name) and x.id == "level" for x in ast.walk(arg))
+                res.oblige("INDENT-LEVEL", f"{cls}.{m}: `{norm(call, 60)}` passes the nesting level on", ok=ok)
+                if not ok:
+                    res.add(Finding("INDENT-LEVEL", f"{cls}.{m}", norm(call.func) + "(…) without level",
+                                    f"{cls}.{m} receives the nesting level but calls `{norm(call, 70)}` without passing it "
+                                    f"({'no level argument' if arg is None else 'level argument ' + norm(arg)}): {c2}.{callee.name} "
+                                    "then formats at its default level 0, so statements of a nested block lose their indentation",
+                                    where=f"pvl/encoder.py:{call.lineno}"))
+    res.floor("calls that must forward the nesting level", n, 6)
